@@ -62,8 +62,9 @@ func genStopPoints(rng *rand.Rand, seed int64) *Scenario {
 	}
 	// choose the nth store operation of v and give it a known shape
 	nth := rng.Intn(6)
-	pre := time.Duration(10+rng.Intn(40))*ms + 1
-	post := time.Duration(10+rng.Intn(40))*ms + 1
+	// (both halves together stay below the promised latency bound h/4)
+	pre := time.Duration(10+rng.Intn(40))*(h/(800)) + 1
+	post := time.Duration(10+rng.Intn(40))*(h/(800)) + 1
 	sc.Plans[fmt.Sprintf("%d:%d", v, nth)] = OpPlan{Pre: pre, Post: post}
 	var at time.Duration
 	if nth == 0 {
